@@ -23,7 +23,11 @@ NA = {
     "C19": "reaction-equation parsing and rate-constant dimensions are pure functions of the text",
     "C20": "rejection of invalid input is a function of constructor arguments only",
 }
-PENDING = {}
+PENDING = {k: "not claimed yet: check under construction in this round (DESIGN.md section 5); to be replaced by a check" for k in
+           ["C01", "C02", "C03", "C04", "C07", "C09", "C10", "C11", "C12", "C14"]}
+for _k in list(PENDING):
+    if _k in CLAIMED:
+        del PENDING[_k]
 
 
 def main():
